@@ -19,8 +19,13 @@ def parse_expr(s):
 
 
 # --------------------------------------------------------------------------------------
-def fresh_value(I, st, t, name):
-    """yields (st, value) - forks only for Opt"""
+def fresh_value(I, st, t, name, lazy=False):
+    """yields (st, value) - forks only for a top-level Opt (nested / lazy: a lazy choice value)"""
+    if lazy and isinstance(t, Opt):
+        c = I.fresh(name + '.isnone', z3.BoolSort())
+        for st1, v in fresh_value(I, st, t.t, name, lazy=True):
+            yield st1, SIte(c, NONE, v)
+        return
     if t is Int:
         yield st, SInt(I.fresh(name, z3.IntSort()))
     elif t is Bool:
@@ -43,7 +48,7 @@ def fresh_value(I, st, t, name):
             if i == len(t.ts):
                 yield st, STuple(acc)
                 return
-            for st1, v in fresh_value(I, st, t.ts[i], '%s.%d' % (name, i)):
+            for st1, v in fresh_value(I, st, t.ts[i], '%s.%d' % (name, i), lazy=True):
                 yield from go(i + 1, acc + [v], st1)
         yield from go(0, [], st)
     elif isinstance(t, ListOf):
@@ -72,7 +77,7 @@ def fresh_value(I, st, t, name):
             if i == len(names):
                 yield st, I.alloc(st, HObj(t.cls, acc))
                 return
-            for st1, v in fresh_value(I, st, t.fields[names[i]], '%s.%s' % (name, names[i])):
+            for st1, v in fresh_value(I, st, t.fields[names[i]], '%s.%s' % (name, names[i]), lazy=True):
                 d = dict(acc)
                 d[names[i]] = v
                 yield from go(i + 1, d, st1)
@@ -281,7 +286,7 @@ def havoc_modifies(I, c, env, st):
     for fld in c.modifies:
         if stype is None or fld not in stype.fields:
             raise EngineLimit('modifies field %s without declared type' % fld)
-        outs = list(fresh_value(I, st, stype.fields[fld], 'hv_' + fld))
+        outs = list(fresh_value(I, st, stype.fields[fld], 'hv_' + fld, lazy=True))
         if len(outs) != 1:
             raise EngineLimit('havoc of optional field')
         o = st.mut(self_ref.addr)
